@@ -97,8 +97,8 @@ class StrictFieldMappingFailure(PreprocessingTransformation):
             # Raise error if there are unmapped fields
             if unmapped_fields:
                 unmapped_fields_str = ", ".join(
-                    unmapped_fields
-                )  # Create a comma-separated list of unmapped fields
+                    sorted(unmapped_fields)
+                )  # Create a comma-separated list of unmapped fields (sorted: all_fields is a set)
                 raise SigmaTransformationError(
                     f"The following fields are not mapped: {unmapped_fields_str}",
                     source=rule.source,
